@@ -139,9 +139,9 @@ func writeEvidence(id, tier string, seed uint64, p *propInfo, a *aggregate, det 
 		"wall_s":      wall,
 		"violations":  exit,
 	}
-	os.MkdirAll(filepath.Join(verifDir, "evidence"), 0o755)
+	os.MkdirAll(filepath.Join(outDir(), "evidence"), 0o755)
 	b, _ := json.MarshalIndent(ev, "", " ")
-	if err := os.WriteFile(filepath.Join(verifDir, "evidence", id+".json"), append(b, '\n'), 0o644); err != nil {
+	if err := os.WriteFile(filepath.Join(outDir(), "evidence", id+".json"), append(b, '\n'), 0o644); err != nil {
 		fmt.Fprintln(os.Stderr, "verif: cannot write evidence:", err)
 	}
 }
